@@ -26,7 +26,8 @@ def run(ctx):
     # the plain corpus too (objects as dated)
     d2 = vlib.drive(ctx, exe, 'sweep')
     execcommon.judge(ctx, exe, 'sweep', os.path.join(d2, 'exec.ndjson'), 'C03', 'c03s')
-    cov = dict(evaluations=wsum['execs'] + msum['replayed'], distinct_nontrivial=wsum['nontrivial'],
+    st = execcommon.suite(ctx, exe, 'C03', 'c03t')      # the repository's own test suite, recorded and re-derived
+    cov = dict(repository_suite=st, evaluations=st['distinct_executions'] + wsum['execs'] + msum['replayed'], distinct_nontrivial=wsum['nontrivial'],
                rule='evaluation = one lint execution on an object re-dated to a boundary instant of that lint (effective / ineffective date, -1 s, 0, +1 s; '
                     'some in a non-UTC zone), plus mock-lint replays of every window state of MC_Lifecycle; non-trivial = distinct (lint, boundary, delta) judged on an applicable in-scope object',
                samples=[wsum['sample'], msum['sample']], boundaries=wsum['boundaries'], lints_judged_at_a_boundary=wsum['lints_judged_at_a_boundary'],
